@@ -441,6 +441,58 @@ def sentinel_oracle(case, run):
     return []
 
 
+def tag_oracle(case, run):
+    """entries sit at their inputs, through any grouping and nesting: when the string-comparing subgraders attach to
+    every answer a message that names the answer text (`matched <text>`), an entry carrying such a message must sit at
+    a box whose input IS that text"""
+    spec, inp, out = case['spec'], case['input'], run.out
+    if spec['cls'] != 'ListGrader' or not isinstance(inp, list):
+        return []
+    text = json.dumps(spec)
+    if G.TAG not in text or any(t in text for t in ('TableGrader', 'accept_any', 'accept_nonempty', 'case_sensitive', 'strip_all')):
+        return []
+    if not isinstance(out, dict) or not isinstance(out.get('input_list'), list) or len(out['input_list']) != len(inp):
+        return []
+    tags = set()
+
+    def walk(v):
+        if isinstance(v, dict):
+            if isinstance(v.get('expect'), str) and v.get('msg') == G.TAG + v['expect']:
+                tags.add(v['expect'])
+            for x in v.values():
+                walk(x)
+        elif isinstance(v, list):
+            for x in v:
+                walk(x)
+    walk(spec)
+    bad = []
+    for k, e in enumerate(out['input_list']):
+        if isinstance(e, dict) and isinstance(e.get('msg'), str) and e['msg'].startswith(G.TAG) and e['msg'][len(G.TAG):] in tags:
+            if ' '.join(inp[k].split()) != e['msg'][len(G.TAG):]:
+                bad.append(('position', 'input_list[%d] = %r reports the answer %r but input %d is %r (inputs %r)'
+                            % (k, e, e['msg'][len(G.TAG):], k, inp[k], inp)))
+    return bad
+
+
+def tagged_cases(rng, tier):
+    """every valid grouping shape (groups numbered in any layout order), per-box distinguishable answers / messages"""
+    cases = []
+    gen = G.Gen(rng)
+    for layout in G.grouping_layouts(rng, tier):
+        spec, correct = G.tagged_group_spec(rng, layout)
+        variants = [list(correct)]
+        one = list(correct)
+        one[rng.randrange(len(one))] = rng.choice([G.Gen.SENTINEL, 'zzz', ''])
+        variants.append(one)
+        sh = list(correct)
+        rng.shuffle(sh)
+        variants.append(sh)
+        for inp in variants:
+            extra, attempt = gen.root_options() if rng.random() < 0.3 else ({}, None)
+            cases.append({'kind': 'grouped-tag', 'spec': G.with_root(spec, **extra), 'input': inp, 'attempt': attempt, 'expect': None})
+    return cases
+
+
 def grid_cases():
     """exhaustive small scopes, run on every tier and seed"""
     cases = []
@@ -601,7 +653,7 @@ def evaluate_case(case, seed, res, stats):
             if twin.build_error is None:
                 twin_log = twin.debuglog
                 stats['twins'] += 1
-        found = oracle(case, run, twin_log) + position_oracle(case, run) + sentinel_oracle(case, run)
+        found = oracle(case, run, twin_log) + position_oracle(case, run) + sentinel_oracle(case, run) + tag_oracle(case, run)
         res.oracle_evals += 1
         if isinstance(case['input'], list) and case['spec']['cls'] == 'SumGrader':
             stats['sum_multi_box_short_form'] += 1
@@ -624,7 +676,7 @@ def evaluate_case(case, seed, res, stats):
         return None
     try:
         t = case_term(case, run)
-        if len(stats['samples']) < 6 and run.status == 'ret' and case['kind'] not in ('corpus', 'grid-string', 'grid-formula') \
+        if len(stats['samples']) < 6 and run.status == 'ret' and case['kind'] not in ('corpus', 'grid-string', 'grid-formula', 'grouped-tag') \
                 and stats['calls'] % 97 == 5:
             leafs, perms, bests = R.oracle_tables(run.rec)
             stats['samples'].append({'grader': case['spec'], 'input': case['input'], 'attempt': case['attempt'],
@@ -692,7 +744,7 @@ def run(ctx):
     else:
         counts = QUICK
     res.distribution_extra = {'scaled_comparer_results_recompute_ok': RECOMPUTE}
-    cases = [dict(c, kind='corpus') for c in CORPUS] + grid_cases() + gen_cases(rng, counts)
+    cases = [dict(c, kind='corpus') for c in CORPUS] + grid_cases() + tagged_cases(rng, ctx['tier']) + gen_cases(rng, counts)
     defaults_stream(res, stats)
     terms, metas = [], []
     for i, case in enumerate(cases):
@@ -738,7 +790,7 @@ def replay(w):
         return False, 'the call raised %r' % (run.out,)
     twin = run_call(G.with_root(case['spec'], debug=True), case['input'], case['attempt'], case['expect'], w.get('call_seed', 1), record=False)
     found = (oracle(case, run, twin.debuglog if twin.build_error is None else None) + position_oracle(case, run)
-             + sentinel_oracle(case, run))
+             + sentinel_oracle(case, run) + tag_oracle(case, run))
     hit = [f for f in found if f[0] == w['kind']]
     return bool(hit), 'grader %s, input %r, attempt %r -> %r ; oracle: %r' % (
         json.dumps(case['spec'], default=repr)[:300], case['input'], case['attempt'], run.out, hit[:2])
